@@ -55,9 +55,13 @@ def _to_copy(op, t, dtype=None, device=None, **kwargs):
     if type(t) != QBitsTensor and t.device.type != device.type:
         # Before moving to another device type, convert back to a QBitsTensor
         t = t.qbits_tensor()
-    scale = op(t._scale, dtype=dtype, device=device, **kwargs)
-    data = op(t._data, device=device, **kwargs)
-    zeropoint = op(t._zeropoint, device=device, **kwargs)
+    # The memory format describes the layout of the data: it does not apply to the scale and zeropoint,
+    # nor to a payload that was grouped (it does not have the shape of the tensor any more)
+    scale_kwargs = {k: v for k, v in kwargs.items() if k != "memory_format"}
+    data_kwargs = kwargs if t._data.ndim == t.ndim else scale_kwargs
+    scale = op(t._scale, dtype=dtype, device=device, **scale_kwargs)
+    data = op(t._data, device=device, **data_kwargs)
+    zeropoint = op(t._zeropoint, device=device, **scale_kwargs)
     return QBitsTensor.create(t._qtype, t._axis, t._group_size, t.size(), t.stride(), data, scale, zeropoint)
 
 
